@@ -262,6 +262,9 @@ def execute(s, env=None, out=sys.stdout,
     except KaRuntimeError as e:
         print_err(errout, e.msg)
         return 1
+    except RecursionError:
+        print_err(errout, "Expression is nested too deeply.")
+        return 1
     statements = parse_tree.children
     if len(statements)>0:
         last_one = statements[-1]
@@ -337,6 +340,9 @@ def execute(s, env=None, out=sys.stdout,
         return 1
     except FunctionArgError as e:
         print_err(errout, e.msg)
+        return 1
+    except RecursionError:
+        print_err(errout, "Expression is nested too deeply.")
         return 1
 
 def reduce_result(r):
